@@ -542,11 +542,11 @@ class Layout:
             if self.rng.random() < 0.2:
                 s = s + self.sp()
             if self.rng.random() < 0.15:
-                s = s + self.osp() + "# " + self.rng.choice(["comment", "end loop", "1 2 3", "(", "é汉", "wrapped \\", "\\", "a \\ b \\"])
+                s = s + self.osp() + "# " + self.rng.choice(["comment", "end loop", "1 2 3", "(", "é汉", "wrapped \\", "\\", "a \\ b \\", "3 µs → grün", "next\u0085line", "sep\u2028", "para\u2029# more", "\u0085", "form\x0cfeed", "vt\x0b", "1 \u2028 1"])
         self.lines.append(s)
         if self.fancy and self.rng.random() < 0.15:
             for _ in range(self.rng.randrange(1, 3)):
-                self.lines.append(self.rng.choice(["", "   ", "# only a comment", "\t#x", "# ends in a backslash \\", "#\\"]))
+                self.lines.append(self.rng.choice(["", "   ", "# only a comment", "\t#x", "# ends in a backslash \\", "#\\", "# grün → 3 µs", "# a\u0085", "#\u2028", "# p\u2029# q", "# ff\x0c"]))
 
     def row_text(self, ents):
         texts = [self.entry(e) for e in ents]
